@@ -42,7 +42,13 @@ def search(S):
     for k in range(runs):
         initialize = bool(k % 2 == 0)
         ax, ang = L.rand_rot(rng)
-        ang = min(ang, 2.5) if initialize else min(ang, 0.6)        # without initialisation the filter starts at zero attitude
+        if initialize:
+            ang = min(ang, 2.5)
+        else:
+            # without initialisation the filter starts at zero attitude: large initial errors, every other one mostly in yaw
+            ang = float(rng.uniform(2.0, 3.0)) if k == 1 else float(rng.uniform(0.2, 3.0))      # the first one beyond 90 deg of yaw
+            if (k // 2) % 2 == 0:
+                ax = np.array([0.1 * rng.normal(), 0.1 * rng.normal(), 1.0]); ax /= np.linalg.norm(ax)
         x0 = np.concatenate([np.tan(ang / 4) * ax, rng.uniform(-0.05, 0.05, 3)])
         decl = float(rng.uniform(-0.4, 0.4)); incl = float(rng.uniform(-1.1, 1.1))
         if k % 4 == 3:
@@ -86,4 +92,4 @@ def search(S):
         S.check("launch_sim", "corrections_accepted", inp, bool(np.nanmean(ret[-200:] == 0) > 0.9), "> 90% accepted late in the run", float(np.nanmean(ret[-200:] == 0)), "accelerometer corrections keep being rejected")
 
 
-H.run(search, "sensor models on random attitudes with declination/inclination both zero, one zero, both non-zero; closed-loop runs of 20 simulated seconds, noise off, with and without initialisation, random true attitude (up to 2.5 rad with init, 0.6 rad without), biases in +-0.05 rad/s, inclination in +-1.1, declination in +-0.4, two rate settings; distinct = distinct (unit, input)")
+H.run(search, "sensor models on random attitudes with declination/inclination both zero, one zero, both non-zero; closed-loop runs of 20 simulated seconds, noise off, with and without initialisation, random true attitude (up to 2.5 rad with init; without init the estimate starts at zero with errors up to 3.0 rad, half of them mostly in yaw), biases in +-0.05 rad/s, inclination in +-1.1, declination in +-0.4, two rate settings; distinct = distinct (unit, input)")
